@@ -19,7 +19,9 @@
 //!   host functions `in_<type>(k)` (the k-th element of `ins`, so nothing is
 //!   known at compile time) or contains them as literals, and hands every
 //!   result to a host sink `out_<type>(v)` so that the returned value is
-//!   materialised and read.
+//!   materialised and read.  Lists come in every element type of NoCrash.ElemSize that the host
+//!   can make (`in_list_unit` .. `in_list_list_u64`; zero-sized, 1 / 2 / 4 / 8 bytes, String,
+//!   optional, nested); records are built by the script from host-provided fields.
 //!
 //! The driver computes no expectation.  Its result line only says that the call
 //! returned (plus the sunk values, for the reader).  A trap / abort kills this
@@ -87,6 +89,16 @@ fn pfx_of(v: &Value) -> Prefix {
     Prefix::new_relaxed(ip, v["len"].as_u64().unwrap() as u8).expect("c10 harness: prefix")
 }
 
+fn unit_of(v: &Value) {
+    assert_eq!(sval(v), "()", "c10 harness: not a unit value");
+}
+fn opt_u64_of(v: &Value) -> Option<u64> {
+    if v.is_null() { None } else { Some(parse_num!(u64, sval(v))) }
+}
+fn list_u64_of(v: &Value) -> List<u64> {
+    v.as_array().expect("c10 harness: list").iter().map(|x| parse_num!(u64, sval(x))).collect::<Vec<u64>>().into()
+}
+
 fn strip_ansi(s: &str) -> String {
     let mut out = String::new();
     let mut it = s.chars();
@@ -136,6 +148,26 @@ fn runtime() -> Runtime<NoCtx> {
         fn in_list_str(k: u32) -> List<RotoString> {
             arg(k, "list_str").as_array().unwrap().iter().map(|x| RotoString::from(sval(x))).collect::<Vec<RotoString>>().into()
         }
+        // the element-type dimension of List[T] (NoCrash.ElemSize): zero-sized, 2 and 4 byte elements,
+        // nested lists and optional elements.  Records cannot be made by the host: the scripts build
+        // them from host-provided fields.
+        fn in_unit(k: u32) { unit_of(&arg(k, "unit")) }
+        fn in_opt_u64(k: u32) -> Option<u64> { opt_u64_of(&arg(k, "opt_u64")) }
+        fn in_list_unit(k: u32) -> List<()> {
+            arg(k, "list_unit").as_array().unwrap().iter().map(unit_of).collect::<Vec<()>>().into()
+        }
+        fn in_list_u16(k: u32) -> List<u16> {
+            arg(k, "list_u16").as_array().unwrap().iter().map(|x| parse_num!(u16, sval(x))).collect::<Vec<u16>>().into()
+        }
+        fn in_list_u32(k: u32) -> List<u32> {
+            arg(k, "list_u32").as_array().unwrap().iter().map(|x| parse_num!(u32, sval(x))).collect::<Vec<u32>>().into()
+        }
+        fn in_list_opt_u64(k: u32) -> List<Option<u64>> {
+            arg(k, "list_opt_u64").as_array().unwrap().iter().map(opt_u64_of).collect::<Vec<Option<u64>>>().into()
+        }
+        fn in_list_list_u64(k: u32) -> List<List<u64>> {
+            arg(k, "list_list_u64").as_array().unwrap().iter().map(list_u64_of).collect::<Vec<List<u64>>>().into()
+        }
 
         fn out_u8(v: u8) { sink(v.to_string()) }
         fn out_u16(v: u16) { sink(v.to_string()) }
@@ -154,6 +186,7 @@ fn runtime() -> Runtime<NoCtx> {
         fn out_pfx(v: Prefix) { sink(v.to_string()) }
         fn out_asn(v: Asn) { sink(v.to_string()) }
         fn out_none() { sink("None".to_string()) }
+        fn out_unit(_v: ()) { sink("()".to_string()) }
     })
     .expect("c10 harness: providers and sinks register");
     rt
